@@ -4923,6 +4923,8 @@ EmitJmpCall:
 
           err = _code->add_address_to_address_table(jump_address);
           if (ASMJIT_UNLIKELY(err != Error::kOk)) {
+            // Nothing has been emitted - don't leave the relocation of this instruction behind.
+            (void)_code->_relocations.pop();
             goto Failed;
           }
 
@@ -4985,6 +4987,10 @@ EmitRel:
 
     Fixup* fixup = _code->new_fixup(*label, _section->section_id(), offset, rel_offset, of);
     if (ASMJIT_UNLIKELY(!fixup)) {
+      // Nothing has been emitted - don't leave the relocation of this instruction behind.
+      if (re) {
+        (void)_code->_relocations.pop();
+      }
       goto OutOfMemory;
     }
 
